@@ -54,12 +54,34 @@ def build(sc, k=0, plus=0, scale="own"):
     return lena.structures.graph(coords, field_names=make_names(sc, k), scale=sca), coords
 
 
+# private attributes of lena objects the harness would like to look at but this version of lena does not have (or has
+# in another shape): attribute name -> how often.  Reported as reduced coverage, never as a violation.
+NOT_OBSERVABLE = {}
+
+
+def private(obj, attr):
+    """A private attribute of a lena object, or None (and counted) if there is none."""
+    try:
+        return getattr(obj, attr)
+    except AttributeError:
+        NOT_OBSERVABLE[attr] = NOT_OBSERVABLE.get(attr, 0) + 1
+        return None
+
+
 def parsed_errors(g):
-    """[owner, tail tokens, index] of every error field, read from the (private) parse result."""
-    out = []
-    for _, coord_name, tail, ind in g._parsed_error_names:
-        out.append({"owner": list(g.field_names).index(coord_name), "tail": tail.split("_") if tail else [], "index": ind})
-    return out
+    """[owner, tail tokens, index] of every error field, read from the (private) parse result; None if that cannot
+    be observed in this version."""
+    parsed = private(g, "_parsed_error_names")
+    if parsed is None:
+        return None
+    try:
+        out = []
+        for _, coord_name, tail, ind in parsed:
+            out.append({"owner": list(g.field_names).index(coord_name), "tail": tail.split("_") if tail else [], "index": ind})
+        return out
+    except Exception:   # noqa  (the private structure has another shape)
+        NOT_OBSERVABLE["_parsed_error_names (shape)"] = NOT_OBSERVABLE.get("_parsed_error_names (shape)", 0) + 1
+        return None
 
 
 def observe_construct(sc, k=0):
@@ -118,7 +140,7 @@ def replay_graph(ctx, rec, k, report):
             return
         if obs["dim"] != exp["dim"]:
             report("graph.dim", {"names": names, "expected": exp["dim"], "observed": obs["dim"]})
-        if sorted(map(repr, obs["errs"])) != sorted(map(repr, [dict(e) for e in exp["errs"]])):
+        if obs["errs"] is not None and sorted(map(repr, obs["errs"])) != sorted(map(repr, [dict(e) for e in exp["errs"]])):
             report("graph:error-fields", {"names": names, "expected": exp["errs"], "observed": obs["errs"]})
         for e in obs["_extra"]:
             report("graph:attributes", {"names": names, "what": e})
@@ -127,47 +149,63 @@ def replay_graph(ctx, rec, k, report):
         report("graph.__init__:rejected:%s" % obs.get("exc"), {"scenario": sc, "names": names})
         return
     before = (copy.deepcopy(g.coords), g.field_names, g.scale())
+    # what the harness prepares (its own code: an exception here is not lena's)
+    other = make_eq_other(sc, arg, k) if op == "eq" else None
+    o = ob = c = c0 = upd = None
+    if op == "ctx":
+        upd = private(g, "_update_context")
+        if upd is None:
+            return              # not observable in this version
+        c0 = {} if arg == "empty" else copy.deepcopy(BUSY)
+        c = copy.deepcopy(c0)
+    if op == "add":
+        o, _ = build(sc, k, plus=100, scale=arg)
+        ob = copy.deepcopy(o.coords)
+    # the calls of the structure under test
+    got = {}
     try:
         if op == "iter":
-            pts = [list(p) for p in g]
-            rows = [list(p) for p in g.rows()]
-            if pts != exp["val"] or rows != exp["val"] or not all(isinstance(p, tuple) for p in g):
-                report(key, {"names": names, "expected": exp["val"], "iter": pts, "rows": rows})
+            got = {"pts": [list(p) for p in g], "rows": [list(p) for p in g.rows()],
+                   "tuples": all(isinstance(p, tuple) for p in g)}
         elif op == "eq":
-            other = make_eq_other(sc, arg, k)
-            got = (g == other)
-            ne = (g != other)
-            if got is not exp["val"] or ne is not (not exp["val"]):
-                report("graph.__eq__:%s" % arg, {"names": names, "expected": exp["val"], "eq": got, "ne": ne})
+            got = {"eq": (g == other), "ne": (g != other)}
         elif op == "ctx":
-            c0 = {} if arg == "empty" else copy.deepcopy(BUSY)
-            want = copy.deepcopy(c0)
-            for e in exp["val"]:
-                want.setdefault("error", {})[name(e["key"])] = {"index": e["index"]}
-            c = copy.deepcopy(c0)
-            r = g._update_context(c)
-            if c != want or r is not None:
-                report("graph._update_context:%s" % arg, {"names": names, "initial": c0, "expected": want, "observed": c})
+            got = {"r": upd(c)}
         elif op == "add":
-            o, _ = build(sc, k, plus=100, scale=arg)
-            ob = copy.deepcopy(o.coords)
-            s = g + o
-            ev = exp["val"]
-            want_names = tuple(name(t) for t in ev["names"])
-            if not isinstance(s, lena.structures.graph) or s is g or s is o:
-                report("graph.__add__:not-a-new-graph", {"names": names})
-            elif s.coords != ev["coords"] or tuple(s.field_names) != want_names:
-                report("graph.__add__", {"names": names, "expected": ev, "coords": s.coords, "field_names": s.field_names})
-            if o.coords != ob:
-                report("graph.__add__:operand-modified", {"names": names})
+            got = {"s": g + o}
         elif op == "scale":
-            if g.scale() != py_scale(exp["val"]):
-                report("graph.scale()", {"names": names, "expected": exp["val"], "observed": g.scale()})
+            got = {"scale": g.scale()}
+        after = (g.coords, g.field_names, g.scale())
     except Exception as exc:   # noqa
         report("%s:raised:%s" % (key if op != "add" else "graph.__add__" + (":error-fields" if g.dim < len(names) else ""),
                                  exc_name(exc)), {"names": names, "arg": arg, "exception": repr(exc)})
         return
-    if (g.coords, g.field_names, g.scale()) != before:
+    # the judgement (harness code again)
+    if op == "iter":
+        if got["pts"] != exp["val"] or got["rows"] != exp["val"] or not got["tuples"]:
+            report(key, {"names": names, "expected": exp["val"], "iter": got["pts"], "rows": got["rows"]})
+    elif op == "eq":
+        if got["eq"] is not exp["val"] or got["ne"] is not (not exp["val"]):
+            report("graph.__eq__:%s" % arg, {"names": names, "expected": exp["val"], "eq": got["eq"], "ne": got["ne"]})
+    elif op == "ctx":
+        want = copy.deepcopy(c0)
+        for e in exp["val"]:
+            want.setdefault("error", {})[name(e["key"])] = {"index": e["index"]}
+        if c != want or got["r"] is not None:
+            report("graph._update_context:%s" % arg, {"names": names, "initial": c0, "expected": want, "observed": c})
+    elif op == "add":
+        s, ev = got["s"], exp["val"]
+        want_names = tuple(name(t) for t in ev["names"])
+        if not isinstance(s, lena.structures.graph) or s is g or s is o:
+            report("graph.__add__:not-a-new-graph", {"names": names})
+        elif s.coords != ev["coords"] or tuple(s.field_names) != want_names:
+            report("graph.__add__", {"names": names, "expected": ev, "coords": s.coords, "field_names": s.field_names})
+        if o.coords != ob:
+            report("graph.__add__:operand-modified", {"names": names})
+    elif op == "scale":
+        if got["scale"] != py_scale(exp["val"]):
+            report("graph.scale()", {"names": names, "expected": exp["val"], "observed": got["scale"]})
+    if after != before:
         report("%s:graph-modified" % key, {"names": names})
 
 
@@ -388,7 +426,8 @@ def rand_records(rnd, n):
             sc["nc"] = max(0, sc["nc"])
             obs, g = observe_construct(sc, k)
             obs.pop("_extra", None)
-            out.append({"k": "construct", "sc": sc, "arg": 0, "res": obs, "what": "graph(%r)" % ([name(t) for t in names],)})
+            if not (obs.get("ok") and obs.get("errs") is None):      # (error fields not observable: cannot be judged)
+                out.append({"k": "construct", "sc": sc, "arg": 0, "res": obs, "what": "graph(%r)" % ([name(t) for t in names],)})
             if g is not None and sc["lens"] != "zero":
                 which = rnd.choice(["iter", "ctx", "add"])
                 try:
@@ -396,8 +435,10 @@ def rand_records(rnd, n):
                         out.append({"k": "iter", "sc": sc, "arg": 0, "res": [list(p) for p in g], "what": "iter"})
                     elif which == "ctx":
                         c = {}
-                        g._update_context(c)
-                        out.append({"k": "ctx", "sc": sc, "arg": 0, "res": ctx_entries(c), "what": "_update_context"})
+                        upd = private(g, "_update_context")
+                        if upd is not None:
+                            upd(c)
+                            out.append({"k": "ctx", "sc": sc, "arg": 0, "res": ctx_entries(c), "what": "_update_context"})
                     else:
                         s2 = rnd.choice([NONE, 3])
                         o, _ = build(sc, k, plus=100, scale=s2)
